@@ -680,3 +680,83 @@ def check_C10(rep, tier):
     rep.assumptions += ["serde_json is the JSON parser used to obtain values from text and for parse-back (trusted)",
                         "duplicate member names in source text are outside the quantifier",
                         "integer-valued but not integer-spelled numbers (1e2, 1.0, -0) and integers beyond 64 bits: rejection and exact rendering both allowed"]
+
+
+# ----------------------------------------------------------------------------- C09 / C05 (Lifecycle.tla)
+def _life(rep, tier, prop, fams, needed):
+    sh = Sharder(prop)
+    allow = {}
+
+    def on_scn(s):
+        i = sh.add({k: s[k] for k in s if k not in ("out", "allow")})
+        allow[i] = s["allow"]
+        if s["out"] == "err" or any(o["op"] in ("flip", "relabel", "dropsig", "edit") for o in s["ops"]):
+            rep.nontrivial(i)
+        if i % 1511 == 7:
+            rep.sample({"doc": s["doc"], "string_classes": s["s"], "ops": s["ops"], "expected": s["out"]})
+
+    st = run_tlc(f"MC_{prop}", f"MC_{prop}_{tier}.cfg", prop.lower(), on_scn=on_scn)
+    require_clean(st, f"MC_{prop}")
+    rep.add_tlc(st, f"MC_{prop}")
+    rep.vacuity(needed)
+    rep.cov["exhaustive"] = True
+    n = 0
+    skips = {}
+    for fam in fams:
+        env = {"ITV_FAMILY": fam}
+        sh.run(env_extra=env)
+        for r in sh.results():
+            i = r["i"]
+            if "skip" in r:
+                skips[r["skip"]] = skips.get(r["skip"], 0) + 1
+                continue
+            n += 1
+            o = r.get("out")
+            mk = lambda i=i, r=r, env=env: {"scn": dict(sh.scenario(i), allow=allow[i]), "actual": r, "env": env}
+            if o not in allow[i]:
+                rep.mismatch({"kind": "outcome", "actual": o, "allowed": allow[i], "family": fam}, mk)
+            note = r.get("note", {})
+            if note.get("read_differs") or note.get("read_failed"):
+                rep.mismatch({"kind": "wire_trip_changed_block", "family": fam}, mk)
+            if note.get("bytes_differ") is False:
+                rep.mismatch({"kind": "edit_leaves_bytes_equal", "family": fam}, mk)
+    rep.cov["evaluations"] = n
+    rep.cov["traces_validated_against_impl"] = n
+    rep.cov["skipped"] = skips
+    rep.cov["key_families"] = fams
+    sh.cleanup()
+
+
+def check_C09(rep, tier):
+    rep.cov["rule"] = ("TLC enumerates every life-cycle path of Lifecycle.tla: constructor (direct / builder) x 1..3 signers x compact / "
+                       "pretty JSON x content strings over the character classes (placed in every string-bearing field of a link and of "
+                       "a layout) x optional edit x optional signature mutation (bit flip, relabel, drop) x verifier key choice (signers, "
+                       "other key, superset, too many, same material under another scheme, threshold 0); the expected verdict follows "
+                       "from the C04 requirement on the abstract state.  Every path is executed on real objects for several key types; "
+                       "additionally every bit of an ed25519 signature (a sample for ECDSA / RSA) is flipped.  Non-trivial = the path "
+                       "contains a mutation or must fail.")
+    fams = FAMILIES if tier == "thorough" else families_for(tier)
+    _life(rep, tier, "C09", fams, ["Construct", "Write", "Read", "Edit", "FlipBit", "Relabel", "DropSig", "ChooseKeys", "RelabelToStar", "Verify"])
+    bits = 0
+    for fam in (FAMILIES if tier == "thorough" else families_for(tier)):
+        res = json.loads(run_itv(["record", "C09bits", "100000" if fam == "ed25519" else ("256" if tier == "quick" else "1024")],
+                                 env_extra={"ITV_FAMILY": fam}))
+        bits += res["bits"]
+        if res["accepted"] or not res["untouched_ok"]:
+            rep.mismatch({"kind": "bit_flip_accepted", "family": fam}, {"case": res})
+    rep.cov["signature_bits_flipped"] = bits
+    rep.cov["evaluations"] += bits
+    rep.assumptions += ["signature primitives (ring) trusted; class members chosen by seed",
+                        "'same key material declared with a different scheme' is built with PublicKey::from_spki(<spki>, <other scheme>)"]
+
+
+def check_C05(rep, tier):
+    rep.cov["rule"] = ("TLC enumerates (document kind, single-field edit) over 23 link fields and 28 layout fields, and all ordered pairs "
+                       "of distinct near-collision strings over {backslash, quote, n, LF, control, ASCII} up to the bound (Olpc proved "
+                       "injective on them), on Lifecycle.tla whose invariant EditInvalidates says: after any edit the signatures no "
+                       "longer verify.  Each scenario signs a rich document with the library, applies the edit to the JSON of the "
+                       "signed part, re-parses and verifies with the signers' keys: must fail, and the canonical bytes must differ.  "
+                       "Non-trivial = every scenario (each contains an edit); skipped when the edit yields an equal parsed value.")
+    _life(rep, tier, "C05", families_for(tier), ["AConstruct", "AWrite", "ARead", "AEdit", "AEditString", "AVerify"])
+    rep.assumptions += ["pairs of documents are generated by single edits and by bounded enumeration of string pairs, not all pairs",
+                        "expiry differences below one second are outside C05 ('to the second')"]
